@@ -224,9 +224,10 @@ static void gen_programs(int L, int init, std::vector<std::vector<Op>> &out) {
 static int do_exh(int L, int pb, int part, int nparts) {
     std::vector<std::vector<Op>> p0[2], p1;
     gen_programs(L, 0, p0[0]); gen_programs(L, 1, p0[1]); gen_programs(L, 0, p1);
-    uint64_t execs = 0; bool truncated = false; long idx = 0;
+    uint64_t execs = 0; bool truncated = false; long idx = 0, mine = 0;
     for (int init = 0; init < 2; init++) for (auto &a : p0[init]) for (auto &b : p1) {
         if (idx++ % nparts != part) continue;
+        mine++;
         Case c; c.prog = {a, b}; c.init_tasks = {init, 0}; c.probes_after = 1;
         dsched::DfsChooser d(pb);
         bool any_nt = false, any_window = false; uint64_t n0 = 0;
@@ -248,7 +249,7 @@ static int do_exh(int L, int pb, int part, int nparts) {
         if (any_window) vf::label("obs_programs_with_refcount_zero_schedule");
     }
     vf::R().extra["exh_truncated"] = truncated ? "true" : "false";
-    vf::R().extra["exh_program_pairs"] = std::to_string((p0[0].size() + p0[1].size()) * p1.size());
+    vf::R().extra["exh_program_pairs"] = std::to_string(mine);
     vf::dump();
     return 0;
 }
